@@ -113,11 +113,8 @@ func filterBlockRequestFromQuery(multiColReader *segread.MultiColSegmentReader, 
 		switch queryType {
 		case structs.MatchAllQuery:
 			for i := uint(0); i < uint(recIT.AllRecLen); i++ {
-				if recIT.ShouldProcessRecord(i) {
-					blockHelper.AddMatchedRecord(i)
-				}
-
-				// Ensure the timestamp is in range.
+				// Ensure the timestamp is in range; a record whose timestamp
+				// cannot be read is not known to be in range.
 				if !isBlockEnclosed {
 					recTs, err := multiColReader.GetTimeStampForRecord(blockReq.BlockNum, uint16(i), qid)
 					if err != nil {
@@ -129,6 +126,10 @@ func filterBlockRequestFromQuery(multiColReader *segread.MultiColSegmentReader, 
 						recIT.UnsetRecord(i)
 						continue
 					}
+				}
+
+				if recIT.ShouldProcessRecord(i) {
+					blockHelper.AddMatchedRecord(i)
 				}
 			}
 		case structs.ColumnValueQuery:
